@@ -79,6 +79,7 @@ def apply (c : Curve) (newk : KV) (m : Mat) : Except Err Curve := do
 /-- `Curve.knot_insert(nodes)` -/
 def knotInsert (c : Curve) (nodes : List Rat) : Except Err Curve := do
   let newk ← c.kv.insert nodes
+  if newk.deg != c.kv.deg then throw .value      -- both end knots in one request
   let m ← knotInsertMat c.kv nodes
   c.apply newk m
 
